@@ -1,7 +1,81 @@
-//! Further ops (cost, clients): added per property.
-use crate::exec::CaseResult;
-use crate::text::SExp;
+//! Cost of parsing (C15); the HTTP clients are in their own modules.
+use crate::exec::*;
+use crate::text::*;
 
-pub fn exec7(_prop: &str, _op: &str, _line: &str, _args: &[SExp]) -> Option<CaseResult> {
-    None
+fn badarg(line: &str, why: &str) -> CaseResult {
+    CaseResult { line: line.to_string(), result: format!("(bad-arg {})", why), oracle: None, class: "bad-arg".into() }
+}
+
+pub fn exec7(prop: &str, op: &str, line: &str, args: &[SExp]) -> Option<CaseResult> {
+    Some(match op {
+        "cost" => op_cost(line, args),
+        _ => return crate::exec8::exec8(prop, op, line, args),
+    })
+}
+
+pub struct Measured {
+    pub len: usize,
+    pub consumed: Option<usize>,
+    pub bytes: u64,
+    pub calls: u64,
+    pub secs: f64,
+    pub outcome: String,
+}
+
+/// parse `input` with the blocking parser from an in-memory reader; only the parse itself is measured and
+/// the result is leaked (dropping very deep values is known finding K2 of C02, not this property)
+pub fn measure(input: &[u8]) -> Measured {
+    let data = input.to_vec();
+    let (b0, c0) = crate::alloc::snapshot();
+    let t0 = std::time::Instant::now();
+    let r = ipp::parser::IppParser::new(ipp::reader::IppReader::new(std::io::Cursor::new(data))).parse_parts();
+    let secs = t0.elapsed().as_secs_f64();
+    let (b1, c1) = crate::alloc::snapshot();
+    let (consumed, outcome) = match r {
+        Ok((h, a, rd)) => {
+            let cur = rd.into_inner();
+            let pos = cur.position() as usize;
+            std::mem::forget(a);
+            std::mem::forget(h);
+            (Some(pos), "ok".to_string())
+        }
+        Err(e) => (None, show_parse_err(&e)),
+    };
+    Measured { len: input.len(), consumed, bytes: b1 - b0, calls: c1 - c0, secs, outcome }
+}
+
+/// `cost FAMILY N`
+fn op_cost(line: &str, args: &[SExp]) -> CaseResult {
+    let (kind, n) = match (args.first().and_then(|a| a.atom()), args.get(1).and_then(|a| a.atom()).and_then(|s| s.parse::<usize>().ok())) {
+        (Some(k), Some(n)) => (k.to_string(), n),
+        _ => return badarg(line, "cost"),
+    };
+    let input = match crate::malformed::family(&kind, n) {
+        Some(b) => b,
+        None => return badarg(line, "family"),
+    };
+    let m = measure(&input);
+    let mut oracle = None;
+    let per_byte = m.bytes as f64 / m.len as f64;
+    let calls_per_byte = m.calls as f64 / m.len as f64;
+    if m.bytes > 400 * m.len as u64 + 16384 {
+        oracle = Some(format!("parsing {} bytes of family `{}` allocated {} bytes ({:.0} per input byte; ceiling 400)", m.len, kind, m.bytes, per_byte));
+    } else if m.calls as f64 > 2.5 * m.len as f64 + 256.0 {
+        oracle = Some(format!("parsing {} bytes of family `{}` made {} allocator calls ({:.2} per input byte; ceiling 2.5)", m.len, kind, m.calls, calls_per_byte));
+    } else if m.secs > 20.0 {
+        oracle = Some(format!("parsing {} bytes of family `{}` took {:.1} s", m.len, kind, m.secs));
+    } else if n >= 512 {
+        // doubling: the cost at n must not exceed 2.5 x the cost at n/2 (plus slack)
+        if let Some(half) = crate::malformed::family(&kind, n / 2) {
+            let h = measure(&half);
+            if m.bytes as f64 > 2.5 * h.bytes as f64 + 65536.0 {
+                oracle = Some(format!("family `{}`: {} bytes allocated for {} input bytes but {} for {} (growth factor {:.1} on doubling)", kind, m.bytes, m.len, h.bytes, h.len, m.bytes as f64 / h.bytes.max(1) as f64));
+            }
+        }
+    }
+    let result = match m.consumed {
+        Some(c) => format!("consumed={}", c),
+        None => m.outcome.clone(),
+    };
+    CaseResult { line: line.into(), result, oracle, class: format!("{}: {:.0} B/B {:.2} calls/B", kind, per_byte, calls_per_byte) }
 }
